@@ -536,13 +536,21 @@ def processMessage (o : Opts) (s : St) (m : Msg) : St × Bool :=
     if m.attrs / 8 ≠ 0 then ({ s with err := some .msgAttrs }, false) else
     (maybeKeepRecord o s (msgToRecord m) false, true)
 
-/-- the loop over the inner messages: `Offset += base; Attributes |= compression; if !process… { return }` -/
-def processInner (o : Opts) (base : Int) (codec : Nat) : St → List Msg → St
+/-- the inner message as the loop hands it to `processV0Message` / `processV1Message`: `Offset += base; Attributes |=
+compression`, and for a `*kmsg.MessageV1` inside a v1 wrapper with attribute bit 3 (LogAppendTime; `lat` = the wrapper's
+timestamp) `Attributes |= 0b1000; Timestamp = message.Timestamp` (/repo 581b089) -/
+def innerSeen (base : Int) (codec : Nat) (lat : Option Int) (m : Msg) : Msg :=
+  let m' := { m with offset := m.offset + base, attrs := m.attrs ||| codec }
+  match lat with
+  | some ts => if m.isV1 then { m' with attrs := m'.attrs ||| 8, ts := ts } else m'
+  | none => m'
+
+/-- the loop over the inner messages: `…; if !process… { return }` -/
+def processInner (o : Opts) (base : Int) (codec : Nat) (lat : Option Int) : St → List Msg → St
   | s, [] => s
   | s, m :: ms =>
-    let m' := { m with offset := m.offset + base, attrs := m.attrs ||| codec }
-    let (s', ok) := processMessage o s m'
-    if ok then processInner o base codec s' ms else s'
+    let (s', ok) := processMessage o s (innerSeen base codec lat m)
+    if ok then processInner o base codec lat s' ms else s'
 
 /-- `fp.Err = …` when the inner walk left an error -/
 def setErr (s : St) : Option Err → St
@@ -559,14 +567,16 @@ def processOuter (o : Opts) (s : St) (m : Msg) (inner : Inner) : Option St :=
   if inner.msgs.isEmpty then (if inner.panic then none else some s) else
   if inner.panic then none else
   if m.isV1 then
+    -- `message.Attributes&0b1000 != 0`
+    let lat : Option Int := if m.attrs / 8 % 2 = 1 then some m.ts else none
     if m.offset ≠ 0 then
       match inner.msgs.getLast? with
       | none => none
       | some last =>
         if m.offset < last.offset then some { s with err := some .wrapperOffset }
-        else some (processInner o (m.offset - last.offset) codec s inner.msgs)
-    else some (processInner o 0 codec s inner.msgs)
-  else some (processInner o 0 codec s inner.msgs)
+        else some (processInner o (m.offset - last.offset) codec lat s inner.msgs)
+    else some (processInner o 0 codec lat s inner.msgs)
+  else some (processInner o 0 codec none s inner.msgs)
 
 /-- one iteration of the loop of `ProcessFetchPartition` on an item; `none` = panic -/
 def stepItem (o : Opts) (s : St) : Item → Option St
